@@ -36,6 +36,16 @@ theorem C17_clone_balanced (sh : Shape) (failAt : Nat) :
     Balanced st.evs (match r with | some o => o.ids | none => []) ∧ (r.isNone ↔ ¬ NoFail st.evs) :=
   clone_summary failAt sh
 
+/-- …and what a successful clone owns is a value of the SOURCE's shape (same kinds, same nesting, elements in index
+    order — `shapeOf` reads the shape back from the ownership tree), from any start state and for any fault position;
+    and a balanced run never owns a block twice (so the ids of the clone are pairwise distinct). -/
+theorem C17_clone_shape (sh : Shape) (failAt : Nat) (s : St) (o : Owned) (h : (clone failAt sh s).1 = some o) :
+    shapeOf o = sh :=
+  clone_shape failAt sh s o h
+
+theorem C17_balanced_nodup (evs : List Ev) (owned : List Nat) (h : Balanced evs owned) : owned.Nodup :=
+  balanced_nodup h
+
 /-- cif_value_insert_element_at, array full or not, every element shape, every fault position: no double / invalid
     free; on failure nothing allocated in the call stays live; on success exactly the cloned element and — iff the
     array was full — the new element array are live; CIF_OK exactly when no request failed. -/
